@@ -856,6 +856,25 @@ func genAlgebra(r *rand.Rand) logqIn {
 	} else {
 		a, b := genPred(r, 1), genPred(r, 1)
 		par := func(p *predIn) *predIn { return &predIn{T: "paren", A: p} }
+		if r.Intn(3) == 0 {
+			// two matchers on ONE label, the left one with an inline flag that must stay inside its own expression
+			// (?i) / (?s) do not extend over a following alternative of another matcher), written without parentheses
+			for i := range in.Recs {
+				in.Recs[i].Attrs = append(in.Recs[i].Attrs, [2][]int{B("lvl"), B(pick(r, []string{"warn", "WARN", "error", "ERROR", "b", "B", "a", "A", "a\nb", ""}))})
+			}
+			ops := []string{"re", "nre"}
+			if r.Intn(2) == 0 {
+				ops = []string{"re", "re"}
+			}
+			a = &predIn{T: "m", Label: B("lvl"), Op: ops[r.Intn(2)], Val: B(pick(r, []string{"(?i)warn", "(?i)a", "(?s)a.b", "(?i:a)", "(?i)A|x"})), Re: eps}
+			b = &predIn{T: "m", Label: B("lvl"), Op: ops[r.Intn(2)], Val: B(pick(r, []string{"error", "b", "a.b", "B", "warn"})), Re: eps}
+			if r.Intn(4) == 0 {
+				a, b = b, a
+			}
+			if r.Intn(4) != 0 {
+				par = func(p *predIn) *predIn { return p }
+			}
+		}
 		in.Fam = "pred"
 		in.Queries = [][]stageIn{
 			cat(base, stageIn{T: "label", Pred: &predIn{T: "and", A: par(a), B: par(b)}}),
